@@ -86,7 +86,7 @@ def main():
     finally:
         sh("git -C /repo worktree remove --force %s" % wt)
         # regenerate source-derived Coq files for /repo itself (a VERIF_REPO run rewrites them)
-        sh("PYTHONPATH=/repo:%s/harness /venv/bin/python -c 'import py2v_arch, py2v_stats, py2v_proto, py2v_grid, py2v_es, py2v_rank, py2v_ucb, py2v_c18, py2v_thr, py2v_store, py2v_viz, py2v_prox, py2v_dqd, py2v_op, py2v_storeops, py2v_sliding, py2v_retrieve, py2v_gridviz, py2v_validate, py2v_sched'" % ROOT, cwd=ROOT)
+        sh("PYTHONPATH=/repo:%s/harness /venv/bin/python -c 'import py2v_arch, py2v_stats, py2v_proto, py2v_grid, py2v_es, py2v_rank, py2v_ucb, py2v_c18, py2v_thr, py2v_store, py2v_viz, py2v_prox, py2v_dqd, py2v_op, py2v_storeops, py2v_sliding, py2v_retrieve, py2v_gridviz, py2v_validate, py2v_sched, py2v_bandit'" % ROOT, cwd=ROOT)
     dst = os.path.join(ROOT, "seeded", name)
     os.makedirs(dst, exist_ok=True)
     for f in ("patch.diff", "demo.py", "notes.md"):
